@@ -119,11 +119,20 @@ class JTemplate:
 
     def loops(self) -> List[JLoop]:
         out = []
+        assigns = self.assigns()
         for n in self.walk():
             if isinstance(n, J.For):
                 base = n.iter
                 filters, sort_attr, rev = [], None, False
-                while isinstance(base, J.Filter):
+                hops = 0
+                while isinstance(base, (J.Filter, J.Name)):
+                    if isinstance(base, J.Name):
+                        a = assigns.get(base.name, [])
+                        if len(a) == 1 and hops < 4 and isinstance(a[0].node, (J.Filter, J.Getattr, J.Name)):
+                            base = a[0].node  # {% set x = <expr> %}: follow the alias
+                            hops += 1
+                            continue
+                        break
                     filters.append(base.name)
                     if base.name == "sort":
                         for k in base.kwargs:
